@@ -94,7 +94,8 @@ def sized_struct(r, name, total, placement):
         fields = [("arr", 0, ("arr", (r.choice(["u", "i"]), w), n))]
         while rest > 0:
             x = min(rest, 64)
-            fields.append(("r%d" % len(fields), 10 + len(fields), ("u", x)))
+            # (beyond 64 bits the sibling is sometimes NAMED like an unrolled element of the array)
+            fields.append((("arr_1" if total > 64 and len(fields) == 1 and r.random() < 0.4 else "r%d" % len(fields)), 10 + len(fields), ("u", x)))
             rest -= x
     elif placement == "enum":
         mx = r.choice([1, 5, 255, 256, 70000])
@@ -365,6 +366,52 @@ def judge(run, decls, expect_reject, what, root, scan=True, warm_up=False):
         run.sample({"schema": text, "what": what, "dbc": kind if expect_reject else "files", "can_c": repr(res_c)[:100] if raised is None else repr(raised)[:100]})
 
 
+def grown_binding(run, k, root):
+    """History: a binding that fits is generated from (DBC and C), then its struct is EDITED IN PLACE on the
+    same tree object - a field appended, or an existing field widened - so that the message no longer fits;
+    both back ends must then refuse the very tree they accepted a moment ago."""
+    from fcp.specs.struct_field import StructField
+    from fcp.specs import type as T
+
+    r = run.rng("grown", k)
+    ws = split_bits(r, r.randint(40, 64), r.randint(2, 4))
+    decls = [shapes.mk_struct("Big", [("f%d" % i, i * 3, (r.choice(["u", "i"]), w)) for i, w in enumerate(ws)]), can_impl("Big", 100)]
+    text = S.print_schema(decls)
+    case = {"schema": text, "what": "a fitting binding, generated from, then grown in place beyond 64 bits"}
+    res = CC.parse(text)
+    if res.is_err():
+        run.violation("front end rejected the schema: %r" % (res.err(),), case)
+        return
+    fcp = res.unwrap()
+    kind, out = attempt_dbc(fcp)
+    res_c, raised, _b, _a, _m, _o = attempt_c(fcp, root)
+    if kind != "files" or raised is not None or type(res_c).__name__ != "Ok":
+        run.violation("a binding of %d bits was refused (dbc: %s, can_c: %r %r)" % (sum(ws), kind, res_c, raised), case)
+        return
+    st = fcp.get_struct("Big").unwrap()
+    if k % 2:
+        extra = 65 - sum(ws) + r.randint(0, 30)
+        st.fields.append(StructField("grown", 99, T.UnsignedType("u%d" % min(64, extra))))
+        case["edit"] = "appended grown @99: u%d" % min(64, extra)
+    else:
+        st.fields[0].type = T.UnsignedType("u%d" % min(64, ws[0] + 65 - sum(ws)))
+        case["edit"] = "f0 widened to %s" % st.fields[0].type.name
+    kind, out = attempt_dbc(fcp)
+    if kind == "files":
+        case["dbc"] = [str(f["contents"])[:1500] for f in out]
+        run.violation("DBC generation returned files for a binding that was grown beyond 64 bits on the tree it had accepted before", case)
+        return
+    res_c, raised, before, after, muts, _o = attempt_c(fcp, root)
+    if raised is None and type(res_c).__name__ == "Ok":
+        run.violation("the C generate command accepted a binding that was grown beyond 64 bits on the tree it had accepted before", case)
+        return
+    if muts or before != after:
+        run.violation("the C generate command touched the output directory for the grown (rejected) binding", case)
+        return
+    run.count("grown_bindings_refused")
+    run.case(sig="grown|%s" % ("append" if k % 2 else "widen"))
+
+
 def run(run):
     sys.dont_write_bytecode = True
     root = env.scratch("c14")
@@ -412,6 +459,10 @@ def run(run):
                         g = good_bindings(r, r.randint(1, 3), 200)
                         body = g + body if r.random() < 0.5 else body + g
                     judge(run, body, True, "variable-size field (%s) at position %d, %s" % (kind, pos, "mixed" if mixed else "alone"), root)
+        for k in range(run.pick(16, 160)):
+            idx += 1
+            if run.mine(idx):
+                grown_binding(run, k, root)
         # big-endian signals at arbitrary (also unaligned) positions and widths: generation may refuse
         # them; whatever it does emit must still keep every signal inside its message and apart
         n_be = run.pick(120, 2000)
@@ -490,7 +541,7 @@ def run(run):
 
 
 def conclude(run):
-    run.require("dbc_attempts", "dbc_rejections", "c_attempts", "c_rejections", "dbc_messages_scanned", "c_messages_scanned", "c_attempts_on_a_reused_manager", "loose_scans")
+    run.require("grown_bindings_refused", "dbc_attempts", "dbc_rejections", "c_attempts", "c_rejections", "dbc_messages_scanned", "c_messages_scanned", "c_attempts_on_a_reused_manager", "loose_scans")
 
 
 def replay(run, case):
